@@ -301,6 +301,17 @@ impl<'a> Norm<'a> {
 
 use syn::parse::Parser;
 
+pub fn strip_jj_lib_prefix(p: &mut Path, log: &mut BTreeMap<String, usize>) -> bool {
+    if p.leading_colon.is_some() && p.segments.len() > 2 && p.segments[0].ident == "jj_lib" && p.segments[1].ident == "content_hash" {
+        let rest: Punctuated<PathSegment, Token![::]> = p.segments.iter().skip(2).cloned().collect();
+        p.segments = rest;
+        p.leading_colon = None;
+        *log.entry("R-MACRO-EXPAND(path)".to_string()).or_default() += 1;
+        return true;
+    }
+    false
+}
+
 pub struct Rename<'a> {
     pub from: &'a str,
     pub to: &'a str,
@@ -368,7 +379,19 @@ impl<'a> VisitMut for Norm<'a> {
 
     fn visit_attribute_mut(&mut self, _a: &mut Attribute) {}
 
+    /// R-MACRO-EXPAND (paths): the derive macro names jj_lib items by absolute path `::jj_lib::content_hash::X`; in the
+    /// single-file crate they are just `X`.
+    fn visit_path_mut(&mut self, p: &mut Path) {
+        strip_jj_lib_prefix(p, &mut self.log);
+        visit_mut::visit_path_mut(self, p);
+    }
+
     fn visit_expr_path_mut(&mut self, p: &mut ExprPath) {
+        if let Some(q) = &mut p.qself {
+            // `<T as ::jj_lib::content_hash::Trait>::f`: the trait part shrinks by the stripped segments
+            let before = p.path.segments.len();
+            if strip_jj_lib_prefix(&mut p.path, &mut self.log) { q.position -= before - p.path.segments.len(); }
+        }
         if p.path.segments.len() > 1 {
             if let Some(seg) = p.path.segments.first_mut() {
                 if let Some((_, to)) = self.unit.path_map.iter().find(|(f, _)| seg.ident == f.as_str()) {
@@ -606,6 +629,11 @@ impl<'a> VisitMut for Norm<'a> {
                     let ex = &f.expr;
                     *f.expr = parse_quote!(#ex.into_vec());
                     self.bump("R-ITER(for)");
+                } else if self.spec.foriter.contains(&n) {
+                    // R-FORITER: `for P in E` over a modelled collection (by reference) -> `for P in E.vx_iter().into_vec()`
+                    let ex = &f.expr;
+                    *f.expr = parse_quote!(#ex.vx_iter().into_vec());
+                    self.bump("R-FORITER");
                 }
                 if let Some(lbl) = self.spec.loop_labels.get(&n) {
                     let w = Ident::new(&format!("__vx_it_{}", lbl), Span::call_site());
